@@ -14,6 +14,7 @@ func init() {
 		Units: []Unit{
 			{Name: "frozen", Quick: 4000, Thorough: 120000, Run: c13Frozen},
 			{Name: "huge-65536-chunks", Quick: 1, Thorough: 3, Run: c13Huge, Serial: true},
+			{Name: "every-chunk-count", ExhaustiveN: func(t string) int { return len(chunkCounts(t)) }, RunIndexed: c13EveryCount},
 			{Name: "independent-bitmaps-concurrently@race", Quick: 6, Thorough: 200, Run: func(c *Ctx) { concIndependent(c, "frozen32") }},
 		},
 	})
